@@ -173,24 +173,33 @@ impl Drop for MemoryAreas {
 }
 
 pub fn get_executable_memory_slice<'s>(start: usize, mem_ptr: *const MemoryAreas) -> &'s [u8] {
+  match try_get_executable_memory_slice(start, mem_ptr) {
+    Some(slice) => slice,
+    None => panic!("TRIED TO EXECUTE {:X}", start),
+  }
+}
+
+/// The bytes from `start` to the end of the region it lies in, or None if
+/// code cannot be executed from that address
+pub fn try_get_executable_memory_slice<'s>(start: usize, mem_ptr: *const MemoryAreas) -> Option<&'s [u8]> {
   let mem = unsafe { &*mem_ptr };
   match start {
-    0x0000..=0x3fff => &mem.rom[start..0x4000],
+    0x0000..=0x3fff => Some(&mem.rom[start..0x4000]),
     0x4000..=0x7fff => {
       let bank_start = mem.cart_state.get_rom_bank() * 0x4000;
       let bank_end = bank_start + 0x4000;
       let offset = (start & 0x3fff) + bank_start;
-      &mem.rom[offset..bank_end]
+      Some(&mem.rom[offset..bank_end])
     },
-    0xc000..=0xcfff | 0xe000..=0xefff => &mem.work_ram[(start & 0xfff)..0x1000],
+    0xc000..=0xcfff | 0xe000..=0xefff => Some(&mem.work_ram[(start & 0xfff)..0x1000]),
     0xd000..=0xdfff | 0xf000..=0xfe9f => {
       let bank_start = mem.wram_bank * 0x1000;
       let bank_end = bank_start + 0x1000;
       let offset = (start & 0xfff) + bank_start;
-      &mem.work_ram[offset..bank_end]
+      Some(&mem.work_ram[offset..bank_end])
     },
-    0xff80..=0xfffe => &mem.high_ram[(start & 0x7f)..],
-    _ => panic!("TRIED TO EXECUTE {:X}", start),
+    0xff80..=0xfffe => Some(&mem.high_ram[(start & 0x7f)..]),
+    _ => None,
   }
 }
 
